@@ -33,6 +33,11 @@ type processEventMessage struct {
 
 func (m processEventMessage) message() {}
 
+// resetMessage makes a catch event forget its listeners and the events it owes them
+type resetMessage struct{}
+
+func (m resetMessage) message() {}
+
 type catchEvent struct {
 	*wiring
 	element         *schema.CatchEvent
@@ -41,6 +46,11 @@ type catchEvent struct {
 	awaitingActions []chan IAction
 	once            sync.Once
 	satisfier       *logic.CatchEventSatisfier
+	// persistent is set for non-interrupting boundary events: they keep listening
+	// after an event, and an event that arrives before the next token has taken the
+	// place of the one that left is owed to that token
+	persistent bool
+	owed       int
 	// running is set once the node's goroutine drains mch; until then nobody
 	// listens and events are dropped instead of piling up in the inbox
 	running atomic.Bool
@@ -79,7 +89,11 @@ func (evt *catchEvent) run(ctx context.Context, sender tracing.ISenderHandle) {
 							actionChan <- flowAction{sequenceFlows: allSequenceFlows(&evt.outgoing)}
 						}
 						evt.awaitingActions = make([]chan IAction, 0)
-						evt.activated.Store(false)
+						if !evt.persistent {
+							evt.activated.Store(false)
+						} else if len(awaitingActions) == 0 {
+							evt.owed++
+						}
 					}
 				}
 			case nextActionMessage:
@@ -87,7 +101,16 @@ func (evt *catchEvent) run(ctx context.Context, sender tracing.ISenderHandle) {
 					evt.activated.Store(true)
 					evt.tracer.Send(ActiveListeningTrace{Node: evt.element})
 				}
+				if evt.owed > 0 {
+					evt.owed--
+					m.response <- flowAction{sequenceFlows: allSequenceFlows(&evt.outgoing)}
+					continue
+				}
 				evt.awaitingActions = append(evt.awaitingActions, m.response)
+			case resetMessage:
+				evt.awaitingActions = make([]chan IAction, 0)
+				evt.owed = 0
+				evt.activated.Store(false)
 			}
 		case <-ctx.Done():
 			evt.tracer.Send(CancellationFlowNodeTrace{Node: evt.element})
@@ -121,6 +144,13 @@ func (evt *catchEvent) NextAction(ctx context.Context, flow Flow) chan IAction {
 	response := make(chan IAction, 1)
 	evt.mch <- nextActionMessage{response: response, flow: flow}
 	return response
+}
+
+// reset ends the listening of a boundary event whose activity is over
+func (evt *catchEvent) reset() {
+	if evt.running.Load() {
+		evt.mch <- resetMessage{}
+	}
 }
 
 func (evt *catchEvent) Element() schema.FlowNodeInterface { return evt.element }
